@@ -798,7 +798,7 @@ package formula
 //@   requires pinv(p)
 //@   assigns parserState(p)
 //@   panics never
-//@   ensures pstep(p) && result != nil && fresh(result) && result.end == spos(p) && result.pos <= result.end && result.pos >= old(spos(p))
+//@   ensures pstep(p) && result != nil && fresh(result) && result.end == spos(p) && result.pos <= result.end && result.pos == old(spos(p))
 //@   ensures[C01] len(result.Value) > 0 || ndp(p) > 0
 
 //@ func (*Parser).parseArgumentList
@@ -1752,7 +1752,7 @@ package formula
 // ---------------------------------------------------------------------------
 
 //@ func NewRunner
-//@   tags [C20,C03]
+//@   tags [C20,C03,C08]
 //@   panics never
 //@   ensures[C20] result != nil && fresh(result) && result.this == nil && result.value != nil && fresh(result.value) && (forall k string :: !mapHas(result.value, k))
 
